@@ -327,9 +327,11 @@ func (d *driver) exec(st step) {
 			d.aborted = true
 		}
 	case "self":
-		w.presence(d.addr(st.Room), "", d.latestJoinRequest(d.addr(st.Room)), true, 110)
+		w.presenceItem(d.addr(st.Room), "", d.latestJoinRequest(d.addr(st.Room)), true, st.Aff, st.Role, codes(st, 110)...)
+		d.countItem(st, "")
 	case "self-unsolicited", "self-again":
-		w.presence(d.addr(st.Room), "", "", true, 110)
+		w.presenceItem(d.addr(st.Room), "", "", true, st.Aff, st.Role, codes(st, 110)...)
+		d.countItem(st, "")
 	case "error":
 		if cl := d.calls[st.Label]; cl != nil && cl.reqID != "" {
 			if rq, ok := w.requestSeen(cl.reqID, 0); ok {
@@ -337,9 +339,10 @@ func (d *driver) exec(st step) {
 			}
 		}
 	case "other":
-		w.presence(strings.SplitN(d.addr(st.Room), "/", 2)[0]+"/secondwitch", "", "", false)
-	case "other-leaves":
-		w.presence(strings.SplitN(d.addr(st.Room), "/", 2)[0]+"/secondwitch", "unavailable", "", false)
+		w.presenceItem(strings.SplitN(d.addr(st.Room), "/", 2)[0]+"/secondwitch", "", "", false, st.Aff, st.Role, st.Codes...)
+	case "other-leaves", "other-removed":
+		w.presenceItem(strings.SplitN(d.addr(st.Room), "/", 2)[0]+"/secondwitch", "unavailable", "", false, st.Aff, st.Role, st.Codes...)
+		d.countItem(st, "others_")
 	case "foreign-malformed":
 		w.foreignMalformed("neverjoined@chat.example.net/somebody", []string{"", "unavailable"}[st.N%2], st.N/2)
 		d.malformedSent++
@@ -347,13 +350,15 @@ func (d *driver) exec(st step) {
 		w.foreignMalformed(strings.SplitN(d.addr(st.Room), "/", 2)[0]+"/secondwitch", []string{"", "unavailable"}[st.N%2], st.N/2)
 		d.malformedSent++
 	case "foreign":
-		w.presence("neverjoined@chat.example.net/somebody", "", "", false, 110)
+		w.presenceItem("neverjoined@chat.example.net/somebody", "", "", false, st.Aff, st.Role, codes(st, 110)...)
 	case "foreign-unavailable":
-		w.presence("neverjoined@chat.example.net/somebody", "unavailable", "", false, 110)
+		w.presenceItem("neverjoined@chat.example.net/somebody", "unavailable", "", false, st.Aff, st.Role, codes(st, 110)...)
 	case "kick":
-		w.presence(d.addr(st.Room), "unavailable", "", true, 307, 110)
+		w.presenceItem(d.addr(st.Room), "unavailable", "", true, st.Aff, st.Role, codes(st, 307, 110)...)
+		d.countItem(st, "own_")
 	case "unavail":
-		w.presence(d.addr(st.Room), "unavailable", "", true, 110)
+		w.presenceItem(d.addr(st.Room), "unavailable", "", true, st.Aff, st.Role, codes(st, 110)...)
+		d.countItem(st, "own_")
 	case "invite":
 		d.invites = append(d.invites, st.Inv)
 		w.invite(*st.Inv)
@@ -361,6 +366,30 @@ func (d *driver) exec(st step) {
 		w.send(unrelated[st.N%len(unrelated)])
 	case "barrier":
 		d.barrier()
+	}
+}
+
+// codes: the step's status codes, or the defaults of hand-written scenarios.
+func codes(st step, def ...int) []int {
+	if st.Codes != nil {
+		return st.Codes
+	}
+	return def
+}
+
+// countItem books which item attributes and removal codes were sent.
+func (d *driver) countItem(st step, prefix string) {
+	if st.Aff == "outcast" && prefix != "" {
+		d.c.Count(prefix+"departure_affiliation_outcast", 1)
+	}
+	for _, code := range st.Codes {
+		switch code {
+		case 301, 307, 321, 322, 332:
+			d.c.Count(fmt.Sprintf("%sremoval_%d", prefix, code), 1)
+		}
+	}
+	if prefix == "" && st.Aff != "" {
+		d.c.Count("own_available_item_"+st.Aff+"_"+st.Role, 1)
 	}
 }
 
